@@ -71,6 +71,14 @@ CHECKS["C19"] = ("exploration",
     "unseen category at each position in turn (must raise, or with skip_errors leave every other cell identical).",
     "DESIGN.md §3 C19")
 
+CHECKS["C12"] = ("exploration",
+    "runtime differential monitors (numpy.digitize, Tree.apply, children_left, box-vs-routing equivalence) on "
+    "edge-targeted query points; ASan+UBSan build of _tree_digitize under the same workload",
+    "Bins of every length in the tier's range and both directions are queried on, next to (float32 neighbours), "
+    "between and beyond every edge; leaf boxes are checked as 'x in box <=> apply(x) == leaf' on threshold-targeted "
+    "points for depth-first and best-first trees; sanitizer reports with an mlinsights frame count as violations.",
+    "DESIGN.md §3 C12")
+
 PENDING = {}
 
 
